@@ -131,3 +131,21 @@ Theorem C08_tool_violator_file_judge_sound : forall rec tool variant infmt inb r
   (tool <> 14 -> has_property = true -> hasout = false).
 Proof. exact CliProofs.judge_clisub_sound. Qed.
 Print Assumptions C08_tool_violator_file_judge_sound.
+
+(* ---------- what "series-parallel" implies: a {-1,0,1} matrix reduced to nothing is totally unimodular, a 0/1 matrix reduced
+   to nothing by binary reductions is reduced to nothing by ternary reductions and is regular (SpTU.v; every size) ---------- *)
+From Cmr Require SpTU TuModel.
+Theorem C08_series_parallel_ternary_is_TU : forall m n M, wf_mat m n M = true -> is_ternary M = true ->
+  sp_greedy true m n M = true -> tu_bf m n M = true.
+Proof. exact SpTU.sp_ternary_TU. Qed.
+Print Assumptions C08_series_parallel_ternary_is_TU.
+
+Theorem C08_binary_reductions_are_ternary_reductions : forall m n M, is_binary M = true ->
+  sp_greedy false m n M = true -> sp_greedy true m n M = true.
+Proof. exact SpTU.sp_greedy_mono_binary_ternary. Qed.
+Print Assumptions C08_binary_reductions_are_ternary_reductions.
+
+Theorem C08_series_parallel_binary_is_regular : forall m n M, wf_mat m n M = true -> is_binary M = true ->
+  sp_greedy false m n M = true -> TuModel.regular_bf m n M = true.
+Proof. exact SpTU.sp_binary_regular. Qed.
+Print Assumptions C08_series_parallel_binary_is_regular.
